@@ -281,6 +281,24 @@ def sample(c):
     return d
 
 
+def _c(**kw):
+    base = {"repeat": 1, "sockpad": 0, "out": "file", "stdio": "pipe", "n": 20, "body": b"m" * 20, "shape": "env", "chain": "none", "errlog": False,
+            "fac": None, "lvl": None, "ident": None, "identval": b"", "exact_limit": False, "real": False}
+    base.update(kw)
+    return base
+
+
+FIXED = [
+    _c(out="stdout", real=True), _c(out="stdout", stdio="file"),                                 # record must leave the stdio buffer before the exec
+    _c(out="file", shape="empty", n=0, body=b""), _c(out="stdout", shape="empty", n=0, body=b""),  # empty message: no record at all
+    _c(out="file", repeat=3), _c(out="filetpl", repeat=2),                                       # same call repeated in one process
+    _c(out="socket", sockpad=107), _c(out="socket", sockpad=106),
+    _c(out="devlog", ident=b"%{env:I}", identval=b"i" * 200, fac="LOCAL3", lvl="DEBUG"),
+    _c(out="file", n=16384, body=b"r" * 16384, exact_limit=True), _c(out="file", n=65537, body=b"r" * 65537),
+    _c(out="file", chain="dropmid", errlog=False),
+]
+
+
 def main():
     ctx = Ctx(PID, "exploration", RULE)
     b = ctx.run.build("ts-asan")
@@ -289,7 +307,7 @@ def main():
                        "/dev/log is redirected to a harness socket by interposing connect(); the 'syslog' output is not built by default",
                        "with error_logging on only the presence of the faithful record is required"]
     nw, per = (4, 700) if ctx.quick else (16, 5000)
-    pbt.run(ctx, {"ts-asan": b}, strategy, evaluate, classify, nw, per, sample=sample)
+    pbt.run(ctx, {"ts-asan": b}, strategy, evaluate, classify, nw, per, sample=sample, fixed_cases=FIXED)
     ctx.finish()
 
 
